@@ -1360,7 +1360,7 @@ class BinaryOperator(SymbolicExpression, ABC):
             -> Iterable[Dict[int, HashedValue]]:
         cache = self._cache_ if cache is None else cache
         entered = False
-        for output, is_false in cache.retrieve(variables_sources):
+        for output, is_false in self._most_general_outputs_(cache.retrieve(variables_sources), cache.keys):
             entered = True
             self._is_false_ = is_false
             cache_match_count.values[self._node_.name] += 1
@@ -1371,6 +1371,28 @@ class BinaryOperator(SymbolicExpression, ABC):
             cache_match_count.values[self._node_.name] += 1
         cache_enter_count.values[self._node_.name] = cache.enter_count
         cache_search_count.values[self._node_.name] = cache.search_count
+
+    @staticmethod
+    def _most_general_outputs_(outputs: Iterable[Tuple[Dict[int, HashedValue], Any]], keys: List[int]) \
+            -> List[Tuple[Dict[int, HashedValue], Any]]:
+        """
+        The cache returns every stored output that matches a lookup. An output stored under a binding that leaves a key
+        unbound stands for every value of that key, so a matching output that binds more keys to the same values is the
+        same fact again: only the most general outputs are served, each once.
+        """
+        outputs = list(outputs)
+        if len(outputs) < 2:
+            return outputs
+        bound = [frozenset((k, v) for k, v in output.items() if k in keys) for output, _ in outputs]
+        max_bound = max(len(b) for b in bound)
+        more_general = [b for b in set(bound) if len(b) < max_bound]
+        served, result = set(), []
+        for b, output in zip(bound, outputs):
+            if b in served or any(g < b for g in more_general):
+                continue
+            served.add(b)
+            result.append(output)
+        return result
 
     def yield_from_cache(self, variables_sources, cache: IndexedCache) -> Iterable[Tuple[Dict[int, HashedValue], bool]]:
         entered = False
